@@ -255,6 +255,15 @@ def c11(ctx):
                     for x in (a, b):
                         apply_history(x, ops)
                     history.append({'t_prev': t_prev, 't_now': t_now, 'ops': [[o[0], o[1]] + ([o[3]] if len(o) > 3 else []) for o in ops], 'premise': ok})
+                    # now and then a partial update (one sub-directory, no --timestamp) on both replicas in between: it scans
+                    # only that directory, so it must leave the TIMESTAMP - and with it the next incremental run - alone
+                    if r.random() < 0.3:
+                        subs = sorted({os.path.dirname(p) for p in live if os.path.dirname(p) and os.path.isdir(os.path.join(a, os.path.dirname(p)))})
+                        if subs:
+                            sd = r.choice(subs)
+                            prc = [run_cli(['update', '-H', ' '.join(hashes), os.path.join(x, sd)], t_prev + 50, tz, key) for x in (a, b)]
+                            history[-1]['partial_update'] = [sd, prc]
+                            stats['partial_updates'] = stats.get('partial_updates', 0) + 1
                     # model requests from the state before the run
                     tree_a, tree_b = tree_from_dir(a), tree_from_dir(b)
                     inject = None
